@@ -236,6 +236,15 @@ func Check12(c Case12, r *core.Rec) {
 					v = u.Query()
 				}
 			}
+			if modelKnown {
+				// the names the list held so far stay in play: after the setter they must be exactly
+				// as present as the new query says (a look-up structure that outlives the list it indexes)
+				for j, p := range model {
+					if j < 4 || j >= len(model)-4 {
+						namesInPlay = append(namesInPlay, p.Name)
+					}
+				}
+			}
 			u.SetSearch(v)
 			sawSetSearch = true
 			r.Class("op:setsearch")
@@ -319,6 +328,10 @@ func Gen12(t *rapid.T) Case12 {
 	} else {
 		c.Start = B(gen.Pick(t, "start", c12Starts))
 	}
+	if rapid.IntRange(0, 7).Draw(t, "longStart") == 0 {
+		// a list long enough for an implementation to treat it differently (index, other sort)
+		c.Start = B(gen.Pick(t, "longStartPrefix", []string{"http://h/?", "foo:opaque?", "http://h/p?"}) + genMediumQuery(t))
+	}
 	if rapid.IntRange(0, 3).Draw(t, "via") == 0 {
 		c.Via = gen.Pick(t, "viaKind", []string{"resolve", "resolve", "clone"})
 		c.TouchBase = rapid.IntRange(0, 2).Draw(t, "touchBase") != 0
@@ -342,8 +355,11 @@ func Gen12(t *rapid.T) Case12 {
 			return Op12{Kind: "setsearch-current", Setter: rapid.IntRange(0, 1).Draw(t, "viaQuery")}
 		}
 		v := gen.Pick(t, "search", c12Search)
-		if rapid.IntRange(0, 5).Draw(t, "searchSoup") == 0 {
+		switch rapid.IntRange(0, 11).Draw(t, "searchSoup") {
+		case 0, 1:
 			v = genQuery(t)
+		case 2:
+			v = genMediumQuery(t)
 		}
 		return Op12{Kind: "setsearch", Value: B(v)}
 	}
@@ -394,6 +410,18 @@ func Gen12(t *rapid.T) Case12 {
 		}
 	}
 	return c
+}
+
+// genMediumQuery: 9..40 parameters over few names (every step of a C12 case reads the whole list through
+// the getters, so the very long lists of genLongQuery are left to C11, C16 and C02).
+func genMediumQuery(t *rapid.T) string {
+	n := rapid.SampledFrom([]int{9, 12, 13, 17, 24, 40}).Draw(t, "nparams")
+	names := []string{"b", "a", "c", "b", "a", "d", "B", "aa"}
+	var parts []string
+	for i := 0; i < n; i++ {
+		parts = append(parts, fmt.Sprintf("%s=%d", names[rapid.IntRange(0, len(names)-1).Draw(t, "pname")], i))
+	}
+	return strings.Join(parts, "&")
 }
 
 var P12 = core.Register(core.Prop[Case12]{
